@@ -135,6 +135,7 @@ func (dc *ClientDnsConnection) QueryWithData(req commands.Request, timeout time.
 
 	reqMsg, err := dc.Serializer.EncodeDnsRequestWithParams(req, qt, upstream)
 	if err != nil {
+		dc.callMutex.Unlock()
 		return nil, errors.WithStack(err)
 	}
 	// log.Debugf("Sending request: %v", reqMsg.Question[0].String())
